@@ -156,6 +156,7 @@ type recorder struct {
 	// payloads a node's timer makes it send (proposal, change view, recovery
 	// request / message): the logical clock of the post-fault progress verdict
 	timerSent map[int]int64
+	typeSent  map[int]map[string]int64 // node -> payload type -> broadcasts
 	accepted  atomic.Int64 // successful AddBlock calls on any node
 	// chain events the consensus loop handled while its ledger was already
 	// further (several blocks arrived in one burst)
@@ -172,7 +173,7 @@ type sentCommit struct {
 
 func newRecorder() *recorder {
 	return &recorder{txs: map[util.Uint256]*txRec{}, msgTypes: map[string]int64{}, maxView: map[uint32]byte{}, commitViews: map[uint32]map[byte]bool{}, logs: map[string]int64{}, xpRejects: map[string]int64{},
-		sentCommits: map[int]map[uint32][]sentCommit{}, timerSent: map[int]int64{}, lastAheadHeight: map[int]uint32{}}
+		sentCommits: map[int]map[uint32][]sentCommit{}, timerSent: map[int]int64{}, typeSent: map[int]map[string]int64{}, lastAheadHeight: map[int]uint32{}}
 }
 
 func (r *recorder) nextSeq() int64 { r.seq++; return r.seq }
@@ -186,6 +187,16 @@ func (r *recorder) addEvent(e blockEvent) {
 	if e.Err == "" {
 		r.accepted.Add(1)
 	}
+}
+
+// sentOf returns how many payloads of the given types the node broadcast so far.
+func (r *recorder) sentOf(node int, types ...string) (k int64) {
+	r.mu.Lock()
+	defer r.mu.Unlock()
+	for _, t := range types {
+		k += r.typeSent[node][t]
+	}
+	return
 }
 
 // timerSentBy returns a copy of the per-node counters of timer-driven payloads.
@@ -361,6 +372,9 @@ func (c *logCore) Write(e zapcore.Entry, fields []zapcore.Field) error {
 		}
 		di, _ := enc.Fields["dbft index"].(uint32)
 		ci, _ := enc.Fields["chain index"].(uint32)
+		if debugLogs && os.Getenv("C19_DEBUG") == "2" {
+			fmt.Printf("%s LOG node%d ledger=%d phase=%d chain event: dbft index %d chain index %d\n", time.Now().Format("05.000"), c.n.idx, c.n.bc.BlockHeight(), c.rec.phase.Load(), di, ci)
+		}
 		c.rec.mu.Lock()
 		c.rec.logs["debug:"+e.Message]++
 		if ci > di {
@@ -369,6 +383,13 @@ func (c *logCore) Write(e zapcore.Entry, fields []zapcore.Field) error {
 		}
 		c.rec.mu.Unlock()
 		return nil
+	}
+	if debugLogs && os.Getenv("C19_DEBUG") == "2" {
+		enc := zapcore.NewMapObjectEncoder()
+		for _, f := range fields {
+			f.AddTo(enc)
+		}
+		fmt.Printf("%s LOG node%d ledger=%d phase=%d %s %s %v\n", time.Now().Format("05.000"), c.n.idx, c.n.bc.BlockHeight(), c.rec.phase.Load(), e.Level, e.Message, enc.Fields)
 	}
 	c.rec.mu.Lock()
 	defer c.rec.mu.Unlock()
@@ -578,10 +599,27 @@ func (cl *cluster) observePayload(from int, raw []byte) (string, int) {
 	rec.mu.Lock()
 	defer rec.mu.Unlock()
 	if r.Err != nil {
-		rec.msgTypes["undecodable"]++
+		// the envelope and the fixed message header (type, height, validator,
+		// view) are still readable
+		typ := "undecodable"
+		var q npayload.Extensible
+		r2 := io.NewBinReaderFromBuf(raw)
+		q.DecodeBinary(r2)
+		if r2.Err == nil && len(q.Data) >= 7 {
+			switch q.Data[0] {
+			case 0x00, 0x20, 0x40, 0x41:
+				rec.timerSent[from]++
+			}
+			typ = fmt.Sprintf("undecodable:type-0x%02x", q.Data[0])
+		}
+		rec.msgTypes[typ]++
 		return "undecodable", -1
 	}
 	rec.msgTypes[p.Type().String()]++
+	if rec.typeSent[from] == nil {
+		rec.typeSent[from] = map[string]int64{}
+	}
+	rec.typeSent[from][p.Type().String()]++
 	if p.ViewNumber() > rec.maxView[p.Height()] {
 		rec.maxView[p.Height()] = p.ViewNumber()
 	}
